@@ -22,6 +22,7 @@ ASSUMPTIONS = ["prost::encoding::{decode_key, skip_field} and unsigned_varint::d
                "prost_codec::Codec::decode's own structure is checked under C57",
                "the accepted idiom for bounding an incomplete frame is delegation to prost_codec::Codec::decode (announced length > max => Err before waiting)"]
 G = "libp2p_gossipsub"
+CONFIGS = [{"name": "gossipsub-features", "packages": ["libp2p-gossipsub"], "features": "metrics,partial-messages"}]
 SELFTEST = [
     {"mutation": "size test moved back before consume_message_prefix (the original F6 defect)", "caught_by": "frame-size/size operand is the frame length (taken after consume_message_prefix succeeded)"},
     {"mutation": "`publish_count > max_publish_messages` -> `>=`", "caught_by": "publish/error only when publish_count > max_publish_messages"},
